@@ -347,7 +347,7 @@ _FEAS_TEXT = ('PROVED on the real branching of is_edge_feasible / phase_two / ph
               'MEANING of a verdict (binary trees, path polytope built by the real polyhedral_path_characterization): "infeasible" is answered only for a cached Infeasible state of the node / its parent or an Infeasible LP answer for a polytope that EVERY input whose evaluation passes the node satisfies '
               '(edge_covers: path_to_node gives the (node, label) steps from the root, each contributes the half-space of its edge, an input passing the node leaves every decision of the path through the recorded label - lemma_reaches_routed). ')
 _WIT_ASSUME = [
-    'C05 tree level (unit pwl_elim, prelude/wit_spec.rs): ENTRY HYPOTHESIS wit_inv(old, old) - every witness cached in the tree handed to infeasible_elimination satisfies, up to 1e-8, every half-space of its path (the constructors create no witnesses; un-pruned composition, apply_func and reduce are proved to keep it; pruned composition / tree arithmetic: bounded, bc prune / histories); '
+    'C05 tree level (unit pwl_elim, prelude/wit_spec.rs): ENTRY HYPOTHESIS wit_inv(old, old) - every witness cached in the tree handed to infeasible_elimination satisfies, up to 1e-8, every half-space of its path (the constructors create no witnesses; composition (pruned and un-pruned), tree arithmetic, apply_func and reduce are proved to keep it; remove_axes and the chaining of whole histories: bounded, bc prune / histories); '
     'ASSUMED contracts: phase_one returns only points that pass the tolerance test of the polytope it was asked for (mirror_points tests the normalised rows with margin 1e-10, `contains` re-checks only in debug builds; bounded: bc mirror); (intersection_n: "a point tolerated by the result is tolerated by every part" is part of the contract proved in unit aff_algebra); '
     'Polytope::contains is used through the contract PROVED in unit aff_algebra (r == every un-normalised row within 1e-8, exact-real reading of f64) - its shape precondition (witness dimension == polytope dimension, otherwise ndarray panics) is ASSUMED at the call sites in phase_inh / phase_two; rule I18: `.into_iter().all(|x| x >= A::from(-1e-8).unwrap())` is the trusted helper all_ge_lit(array, -1, 100000000); '
     'units pwl_compose_pruned / pwl_ops_tree keep contains_tol abstract (prelude/lp_oracle_spec.rs), units pwl_feasible / pwl_elim use the definition proved for `contains` (prelude/lp_oracle_tol_spec.rs): the contracts imported from pwl_feasible hold for every interpretation',
@@ -359,16 +359,19 @@ _WIT_TEXT = ('TREE LEVEL, PROVED for infeasible_elimination (unit pwl_elim, bina
              'state writes, forward_if_redundant and the deferred removals keep the values of surviving nodes. '
              'THE SAME CLAUSE wit_inv(old, old) ==> wit_inv(final, final) IS PROVED FOR: un-pruned composition compose::<false,false> / generic_composition_inplace (unit pwl_compose; also states_kept: every old node keeps its cached state - "update_node keeps the cache when a terminal becomes a decision" - and every copied node starts Indeterminate; '
              'the paths of old nodes are unchanged because old decisions are untouched, lemma_wit_grow in prelude/wit_grow_spec.rs), apply_func (unit pwl_tree: only terminal functions change, states kept) and reduce (unit pwl_reduce: remove_child + merge_child_with_parent keep the values of the survivors and only shorten paths, same emb_inv argument as for the elimination, prelude/wit_edit_spec.rs). '
+             'AND FOR THE PRUNING OPERATIONS, for every answer pattern of the feasibility oracle: compose::<true,false> / generic_composition_inplace with FunctionCompositionInfeasible (unit pwl_compose_pruned) and `tree op &tree` for + - * / (unit pwl_ops_tree, the four gci_* instances) - '
+             'the oracle is_edge_feasible takes &self and writes no state, copies are created by AffContent::new (Indeterminate), refused copies are removed again, single-branch copies are spliced out; invariant gi_inv(a0, current, W) (prelude/wit_prune_spec.rs) with a ghost set W of original nodes that are still the same node '
+             '(the slab reuses indices of spliced-out nodes): only nodes of W carry a cache, they keep state and parent pointer, every decision of the original tree is in W, keeps its value, never loses a child slot and keeps every slot that holds a node of W; a spliced-out node is never an original decision (it was childless when popped) and its child is never an original node. '
              'Polytope::contains itself is PROVED in unit aff_algebra: true iff every un-normalised row b_i - m_i.x >= -1e-8. '
              'INFEASIBLE MARKS (same contract, clauses blame_ok / region_covers, see C03): every Infeasible mark present after the run was present at entry or comes from an Infeasible LP answer for a polytope that EVERY input whose evaluation in the original tree passes the node satisfies - so the marked region is non-empty only if the LP answer is wrong (soundness of the LP solver: C10, not applicable). ')
 for pid, lvl in (('C11', 'other'), ('C05', 'other'), ('C03', 'other')):
-    PROPS[pid]['units'] = ['pwl_feasible', 'pwl_elim'] + (['aff_algebra', 'pwl_compose', 'pwl_tree', 'pwl_reduce'] if pid == 'C05' else [])
+    PROPS[pid]['units'] = ['pwl_feasible', 'pwl_elim'] + (['aff_algebra', 'pwl_compose', 'pwl_compose_pruned', 'pwl_ops_tree', 'pwl_tree', 'pwl_reduce'] if pid == 'C05' else [])
     PROPS[pid]['level'] = lvl
     PROPS[pid]['assumptions'] = ASSUME_COMMON + ASSUME_SLAB + ASSUME_ND + ASSUME_PWL + PROPS[pid]['assumptions'] + _FEAS_ASSUME + _ELIM_ASSUME + (_WIT_ASSUME if pid == 'C05' else [])
 PROPS['C11']['technique'] = 'Verus contracts on the extracted decision logic around the LP solver (is_edge_feasible, phase_two, phase_inh: faults can only lead to less pruning - for every answer of the LP / tolerance / repair oracles, not only single faults) and on infeasible_elimination itself (no panic, termination, well-formedness and node kinds for every answer of the oracles) + bounded fault enumeration (bc faults) with the cfg hook for the tree-level consequences'
 PROPS['C11']['level_text'] = 'Mixed. ' + _FEAS_TEXT + 'This holds for every answer pattern of the oracles, i.e. for any number and kind of LP faults. Also PROVED at tree level (unit pwl_elim, binary trees): ' + _ELIM_TEXT + 'BOUNDED (bc faults, fault enumeration with the cfg hook): the remaining tree-level consequences through infeasible_elimination / pruned composition - same function, sound caches, only less pruning - for every single fault position and kind. ' + PROPS['C11']['level_text']
 PROPS['C05']['technique'] = 'Verus contracts on the extracted witness-producing functions (phase_two, phase_inh: every cached witness passed `contains` for the polytope it is cached for), on Polytope::contains (the 1e-8 row test) and on infeasible_elimination (tree-level cache invariant: witnesses right at entry are right for the pruned tree) + bounded replay (bc prune, bc faults[cache]) of the cache contract on whole trees and through the other operations'
-PROPS['C05']['level_text'] = 'Mixed. ' + _FEAS_TEXT + _WIT_TEXT + 'BOUNDED (bc prune / faults / mirror): the witness contract through PRUNED composition and tree arithmetic (where is_edge_feasible writes states during the construction) and whole histories, infeasible marks only on regions without interior, mirror_points results lie in the polytope. ' + PROPS['C05']['level_text']
+PROPS['C05']['level_text'] = 'Mixed. ' + _FEAS_TEXT + _WIT_TEXT + 'BOUNDED (bc prune / faults / mirror): whole histories end to end (each step is proved, their chaining in the distillation pipeline is replayed), remove_axes, infeasible marks only on regions without interior, mirror_points results lie in the polytope. ' + PROPS['C05']['level_text']
 PROPS['C03']['technique'] = 'Verus contracts on the extracted pruning oracle (is_edge_feasible), LP phase (phase_two), forward_if_redundant and infeasible_elimination: pruning decisions come only from Infeasible verdicts, and the function changes at most for inputs whose original evaluation passes a node with such a verdict (conditional function preservation, LP soundness assumed) + bounded replay (bc prune) of unconditional function preservation through infeasible_elimination and compose::<true,_>'
 PROPS['C03']['level_text'] = 'Mixed. ' + _FEAS_TEXT + 'Structure PROVED (unit pwl_elim): ' + _ELIM_TEXT + 'NOT proved: that removing what these verdicts mark preserves the function (needs the soundness of the LP answer and the simulation argument for the traversal that mutates the tree: bounded). ' + PROPS['C03']['level_text']
 
